@@ -185,7 +185,8 @@ def _post_de(cls, obj):
 
 def class_source(schema) -> str:
     imp, _ = MIXIN_IMPORT[schema["kind"]]
-    out = [PRELUDE.format(mixin_import=imp, repl="True" if schema["repl"] else "False")]
+    out = [("from __future__ import annotations\n" if schema.get("future_ann") else "")
+           + PRELUDE.format(mixin_import=imp, repl="True" if schema["repl"] else "False")]
     for c, k in enumerate(schema["classes"]):
         if k["parent"] is not None:
             bases = f"(K{k['parent']})"
@@ -243,7 +244,7 @@ def load_module(src: str):
     mod = types.ModuleType(name)
     sys.modules[name] = mod
     try:
-        exec(compile(src, name, "exec"), mod.__dict__)
+        exec(compile(src, name, "exec", dont_inherit=True), mod.__dict__)
     except BaseException:
         sys.modules.pop(name, None)
         raise
@@ -375,8 +376,52 @@ def wire_of(schema, v, drop_default_none=False):
 # running the real library
 # ---------------------------------------------------------------------------
 
+def _union_orders_ann(a, out):
+    import typing
+    if typing.get_origin(a) is typing.Union:
+        ms = [x for x in typing.get_args(a) if x is not type(None)]
+        if len(ms) >= 2:
+            out.append([getattr(x, "__name__", str(x)) for x in ms])
+    for x in typing.get_args(a):
+        if x is not Ellipsis:
+            _union_orders_ann(x, out)
+    return out
+
+
+def _union_orders_ty(t, out):
+    if t[0] == "union":
+        out.append([f"K{c}" for c in t[1]])
+    elif t[0] == "list":
+        _union_orders_ty(t[2], out)
+    elif t[0] == "opt":
+        _union_orders_ty(t[1], out)
+    return out
+
+
+class HarnessError(Exception):
+    pass
+
+
 def ann_of(mod, t):
-    return eval(py_ty(t), dict(mod.__dict__))
+    a = eval(py_ty(t), dict(mod.__dict__))
+    # typing's subscription cache is keyed order-insensitively on Union arguments: make sure the annotation
+    # object really has the member order the case (and the Coq model) assumes
+    if _union_orders_ann(a, []) != _union_orders_ty(t, []):
+        raise HarnessError(f"typing cache changed the union member order of {py_ty(t)}: {_union_orders_ann(a, [])}")
+    return a
+
+
+def check_module_orders(mod, schema):
+    for c, k in enumerate(schema["classes"]):
+        cls = getattr(mod, f"K{c}")
+        for n in k["own_fields"]:
+            t = name_ty(schema, n)
+            if ty_has_union(t):
+                a = cls.__annotations__[f"f{n}"]
+                if isinstance(a, str):
+                    a = eval(a, dict(mod.__dict__))
+                if _union_orders_ann(a, []) != _union_orders_ty(t, []):
+                    raise HarnessError(f"typing cache changed the union member order of K{c}.f{n}")
 
 
 CODEC_ENC = {
@@ -472,6 +517,7 @@ def run_ser(mod, schema, root_ty, value, entry):
     token = Token()
     reset(mod)
     res = {"ok": True, "exc": None, "out": None}
+    ann = ann_of(mod, root_ty) if entry["via"] == "codec" else None
     try:
         if entry["via"] == "mixin":
             meth = getattr(obj, entry["method"])
@@ -483,7 +529,7 @@ def run_ser(mod, schema, root_ty, value, entry):
             raw = meth(**kw)
         else:
             m, cn = CODEC_ENC[entry["codec"]]
-            enc = getattr(importlib.import_module(m), cn)(ann_of(mod, root_ty))
+            enc = getattr(importlib.import_module(m), cn)(ann)
             reset(mod)
             raw = enc.encode(obj)
         res["out"] = loads(fmt_of(entry), raw)
@@ -522,13 +568,14 @@ def run_de(mod, schema, root_ty, wire, entry):
     reset(mod)
     res = {"ok": True, "exc": None, "result": None, "checks": []}
     obj = None
+    ann = ann_of(mod, root_ty) if entry["via"] == "codec" else None
     try:
         if entry["via"] == "mixin":
             cls = getattr(mod, f"K{root_ty[1]}")
             obj = getattr(cls, entry["method"])(data, **({"dialect": mod.D} if entry.get("dialect") else {}))
         else:
             m, cn = CODEC_DEC[entry["codec"]]
-            dec = getattr(importlib.import_module(m), cn)(ann_of(mod, root_ty))
+            dec = getattr(importlib.import_module(m), cn)(ann)
             reset(mod)
             obj = dec.decode(data)
     except Exception as e:  # noqa
